@@ -20,6 +20,16 @@ inductive SplitRes (K : Type) where
 
 namespace Obj
 
+/-- `insert_knot` one value at a time with an explicit guard for the collapsed periodic domain
+(`start = end`: numpy's `% 0.0` is `nan`, `bisect_right(knots, nan) = len(knots)`, `IndexError`).
+The same guard is part of `Basis.insertKnot` itself, so `split` calls `Obj.insertKnots` directly;
+the function is kept for `Lemmas/C10Split.lean`. -/
+def insertKnotsSeq (o : Obj K) (knots : List K) (dir : ℕ) : PyM (Obj K) :=
+  knots.foldlM (fun (ob : Obj K) x =>
+    let b := ob.basis dir
+    if b.periodic ≥ 0 ∧ b.stop = b.start ∧ (x < b.start ∨ x > b.stop) then .error .index
+    else ob.insertKnots [x] dir) o
+
 /-- First loop of `split`: for every split value look up the continuity on the ORIGINAL basis
 (`bases = self.bases`), `np.inf ↦ p-1`, and insert `[k] * (continuity + 1)` into the clone. -/
 def splitInsert (o : Obj K) (tol : K) (knots : List K) (dir : ℕ) : PyM (Obj K) :=
